@@ -98,7 +98,9 @@ def handle (op : String) (args : List String) : Option String :=
     let es ← parseEdges edges
     pure (" ".intercalate ((topoSort n es).map toString))
   | "closure", [n, edges] => do
-    -- the hypotheses of topoSort_respects_deps for this graph + the closed relation itself
+    -- the hypothesis of topoSort_respects_deps (cycle) for this graph, transitivity (a theorem now:
+    -- closedDeps_transitive; still evaluated and reported, the reply format is unchanged) + the
+    -- closed relation itself (closedTable = the until-nothing-changes loop)
     let n ← n.toNat?
     let es ← parseEdges edges
     let t := closedTable n es
